@@ -355,7 +355,7 @@ def sx_nodeinfo(d):
 
 
 def sx_fns(d):
-    return [[fid, f.get('parent', 0), f['is_lambda'], f['read'], f['bound'], f['nonlocals']] for fid, f in sorted(d['fns'].items())]
+    return [[fid, f.get('parent', 0), f['is_lambda'], f['read'], f['bound'], f['nonlocals'], f['globals']] for fid, f in sorted(d['fns'].items())]
 
 
 def _o(x):
